@@ -38,7 +38,7 @@ void ipcnames_remember(const char *path)
     }
 }
 
-#ifndef MCRT_IPC   /* the mcrt build has its own wrappers (engine/mcrt_ipc.c) which call ipcnames_remember */
+#if !defined(MCRT_IPC) && !defined(IPCNAMES_NO_WRAPPERS)   /* the mcrt build has its own wrappers (engine/mcrt_ipc.c) which call ipcnames_remember */
 int __wrap_shm_open(const char *name, int oflag, mode_t mode)
 {
     if (oflag & O_CREAT) { char p[64]; snprintf(p, sizeof p, "/dev/shm/%s", name[0] == '/' ? name + 1 : name); ipcnames_remember(p); }
